@@ -13,6 +13,7 @@ INVARIANT TypeOK
 INVARIANT Independent
 INVARIANT SettingsAreTheDesign
 INVARIANT OnlySlotsDependOnHistory
+INVARIANT CarriesFirstReason
 INVARIANT BlockedHoldsNoSpectrum
 INVARIANT ReportIsOneEntryPerRequest
 INVARIANT ReportStatesWhatWasComputed
